@@ -119,6 +119,81 @@ fn preseeded(rng: &mut Rng, out: &mut Out) {
     }
 }
 
+/// A caller-registered function that returns its first argument (no stdlib function returns a
+/// syntax node, so this is the only way a *call* can be the scope of a scoped variable).
+struct FirstArgument;
+impl tree_sitter_graph::functions::Function for FirstArgument {
+    fn call(&self, _graph: &mut tree_sitter_graph::graph::Graph, _source: &str, parameters: &mut dyn tree_sitter_graph::functions::Parameters) -> Result<tree_sitter_graph::graph::Value, tree_sitter_graph::ExecutionError> {
+        let first = parameters.param()?;
+        while parameters.param().is_ok() {}
+        Ok(first)
+    }
+}
+
+/// `node (zq-first @x "…").name`: the variable-name attribute holds the variable as written,
+/// string arguments with their escapes.
+fn call_scoped_variable(rng: &mut Rng, out: &mut Out) {
+    use crate::oracle::observe::observe_graph;
+    use crate::util::catch;
+    use tree_sitter_graph::{ExecutionConfig, Identifier, NoCancellation, Variables};
+    let arg = *rng.pick(&["plain", "with \"quotes\"", "back\\slash", "tab\there", "é ü", "\"", "a\\\"b", ""]);
+    let name = *rng.pick(&["zq_name", "lit", "x-y"]);
+    let written = format!("(zq-first @x {:?}).{}", arg, name);
+    let text = format!("(identifier) @x {{ node {} attr ({}) seen = #true }}\n", written, written);
+    let source = "alpha\nbeta\n";
+    let tree = parse_python(source);
+    let ti = TreeInfo::new(&tree);
+    let file = match exec::load(&text) {
+        Loaded::Ok(f) => f,
+        _ => {
+            out.inconclusive("harness: call-scoped program rejected");
+            return;
+        }
+    };
+    let mut functions = stdlib();
+    functions.add(Identifier::from("zq-first"), FirstArgument);
+    let vars = Variables::new();
+    for lazy in [false, true] {
+        let mode = if lazy { "lazy" } else { "strict" };
+        let r = catch(|| {
+            let config = ExecutionConfig::new(&functions, &vars).lazy(lazy).debug_attributes(Identifier::from(LOC), Identifier::from(VAR), Identifier::from(MAT));
+            file.execute(&tree, source, &config, &NoCancellation).map(|g| observe_graph(&g, &ti))
+        });
+        out.eval();
+        let case = json!({"dsl": text, "source": source, "mode": mode});
+        match r {
+            Ok(Ok(Ok(g))) => {
+                if g.nodes.len() != 2 {
+                    out.violation(&format!("C15:call-scoped-variable:{}", mode), &format!("{} graph nodes, 2 identifiers", g.nodes.len()), case);
+                    return;
+                }
+                for nd in &g.nodes {
+                    match nd.attrs.get(VAR) {
+                        Some(MVal::Str(s)) if *s == written => {}
+                        other => {
+                            out.violation(&format!("C15:wrong-variable-text:{}", mode), &format!("the variable is written {:?}, the attribute holds {:?}", written, other), case);
+                            return;
+                        }
+                    }
+                }
+                out.feat(&format!("call_scoped_variable_checked:{}", mode));
+            }
+            Ok(Ok(Err(e))) => {
+                out.violation("C15:unreadable-graph", &e, case);
+                return;
+            }
+            Ok(Err(e)) => {
+                out.violation(&format!("C15:call-scoped-variable:{}", mode), &format!("execution failed: {}", e), case);
+                return;
+            }
+            Err(p) => {
+                out.violation(&format!("C15:panic:{}", mode), &format!("{}: {}", p.location, p.message), case);
+                return;
+            }
+        }
+    }
+}
+
 /// Stanzas whose full match consists of several sibling nodes (a quantified top-level pattern):
 /// the match-node attribute must name one of those nodes, and both modes must name the same one.
 fn multi_node_match(rng: &mut Rng, out: &mut Out) {
@@ -202,6 +277,7 @@ impl Prop for C15 {
                 preseeded(rng, out);
             }
             multi_node_match(rng, out);
+            call_scoped_variable(rng, out);
             return;
         }
         let mut gcfg = GenCfg::order_insensitive();
